@@ -121,8 +121,290 @@ theorem temp_vs_subprog_refuted :
   revert this
   decide
 
+/-! ### variables (locals, Dict members, map cells): stores and non-interference -/
+
+open Ebv.Bytes
+
+def vsizeOk : VDecl → Prop
+  | .loc s => 0 < s
+  | .dict _ _ => True
+
+theorem memberSlots_bounds (base : Int) : ∀ (ss : List Nat) (pos : Nat), ∀ sl ∈ memberSlots base pos ss,
+    base + pos ≤ sl.addr ∧ sl.addr + sl.size ≤ base + pos + ss.sum
+  | [], _, sl, h => by simp [memberSlots] at h
+  | s :: ss, pos, sl, h => by
+    simp only [memberSlots, List.mem_cons] at h
+    rcases h with rfl | h
+    · simp only [List.sum_cons]; omega
+    · have := memberSlots_bounds base ss (pos + s) sl h
+      simp only [List.sum_cons]; omega
+
+theorem memberSlots_disjoint (base : Int) : ∀ (ss : List Nat) (pos : Nat), (memberSlots base pos ss).Pairwise Slot.disjoint
+  | [], _ => by simp [memberSlots]
+  | s :: ss, pos => by
+    simp only [memberSlots, List.pairwise_cons]
+    refine ⟨fun sl hsl => ?_, memberSlots_disjoint base ss (pos + s)⟩
+    have := memberSlots_bounds base ss (pos + s) sl hsl
+    left; simp only; omega
+
+/-- every variable slot lies between the final and the initial stack value -/
+theorem varSlots_bounds (ds : List VDecl) (stack : Int) (h : ∀ d ∈ ds, vsizeOk d) :
+    (varSlots stack ds).2 ≤ stack ∧
+    ∀ sl ∈ (varSlots stack ds).1, (varSlots stack ds).2 ≤ sl.addr ∧ sl.addr + sl.size ≤ stack := by
+  induction ds generalizing stack with
+  | nil => simp [varSlots]
+  | cons d ds ih =>
+    have hds : ∀ d ∈ ds, vsizeOk d := fun d hd => h d (List.mem_cons_of_mem _ hd)
+    cases d with
+    | loc size =>
+      have hs : 0 < size := h (.loc size) (List.mem_cons_self ..)
+      have := ih (alignDown (stack - size) size) hds
+      have hle := alignDown_le (stack - size) size hs
+      simp only [varSlots, List.mem_cons, forall_eq_or_imp]
+      refine ⟨by omega, ⟨this.1, by omega⟩, fun sl hsl => ?_⟩
+      have := this.2 sl hsl
+      omega
+    | dict k v =>
+      have := ih (alignDown (alignDown (stack - k.sum) 8 - v.sum) 8) hds
+      have h1 := alignDown_le (stack - k.sum) 8 (by omega)
+      have h2 := alignDown_le (alignDown (stack - k.sum) 8 - v.sum) 8 (by omega)
+      simp only [varSlots, List.mem_append]
+      refine ⟨by omega, fun sl hsl => ?_⟩
+      rcases hsl with (hk | hv) | hr
+      · have := memberSlots_bounds _ k 0 sl hk; omega
+      · have := memberSlots_bounds _ v 0 sl hv; omega
+      · have := this.2 sl hr; omega
+
+/-- **every two variables — locals and members of any Dict's key or value — have bytes of their own** -/
+theorem varSlots_disjoint (ds : List VDecl) (stack : Int) (h : ∀ d ∈ ds, vsizeOk d) :
+    (varSlots stack ds).1.Pairwise Slot.disjoint := by
+  induction ds generalizing stack with
+  | nil => simp [varSlots]
+  | cons d ds ih =>
+    have hds : ∀ d ∈ ds, vsizeOk d := fun d hd => h d (List.mem_cons_of_mem _ hd)
+    cases d with
+    | loc size =>
+      simp only [varSlots, List.pairwise_cons]
+      refine ⟨fun sl hsl => ?_, ih _ hds⟩
+      have := (varSlots_bounds ds (alignDown (stack - size) size) hds).2 sl hsl
+      right; exact this.2
+    | dict k v =>
+      have hb := varSlots_bounds ds (alignDown (alignDown (stack - k.sum) 8 - v.sum) 8) hds
+      have h2 := alignDown_le (alignDown (stack - k.sum) 8 - v.sum) 8 (by omega)
+      simp only [varSlots, List.pairwise_append, List.mem_append]
+      refine ⟨⟨memberSlots_disjoint _ k 0, memberSlots_disjoint _ v 0, fun a ha b hb' => ?_⟩, ih _ hds, fun a ha b hb' => ?_⟩
+      · have := memberSlots_bounds _ k 0 a ha
+        have := memberSlots_bounds _ v 0 b hb'
+        right; omega
+      · have hbb := (hb.2 b hb').2
+        rcases ha with ha | ha
+        · have := memberSlots_bounds _ k 0 a ha; right; omega
+        · have := memberSlots_bounds _ v 0 a ha; right; omega
+
+theorem load_store_same (m : Mem) (a : Int) (bs : List UInt8) :
+    loadBytes (storeBytes m a bs) ⟨a, bs.length⟩ = bs := by
+  apply List.ext_getElem
+  · simp [loadBytes]
+  · intro i h1 h2
+    simp only [loadBytes, List.getElem_map, List.getElem_range, storeBytes]
+    have : a ≤ a + (i : Int) ∧ a + (i : Int) < a + bs.length := by omega
+    rw [if_pos this]
+    have e : (a + (i : Int) - a).toNat = i := by omega
+    rw [e]
+    simp [List.getD_eq_getElem?_getD, h2]
+
+theorem load_store_disjoint (m : Mem) (a : Int) (bs : List UInt8) (sl : Slot)
+    (h : Slot.disjoint ⟨a, bs.length⟩ sl) : loadBytes (storeBytes m a bs) sl = loadBytes m sl := by
+  unfold loadBytes
+  apply List.map_congr_left
+  intro i hi
+  have hi' : i < sl.size := by simpa using hi
+  simp only [storeBytes]
+  rw [if_neg]
+  rcases h with h | h <;> simp only at h <;> omega
+
+theorem temp_bytes_length (n : Nat) (bs : List UInt8) : ((bs ++ List.replicate n 0).take n).length = n := by
+  simp [List.length_take, List.length_append, List.length_replicate]
+
+/-- temporaries never reach a slot at or above the `stack` they are taken below -/
+theorem writeTemps_above : ∀ (ts : List (Nat × List UInt8)) (_ : ∀ t ∈ ts, 0 < t.1) (stack : Int) (m : Mem) (sl : Slot),
+    stack ≤ sl.addr → loadBytes (writeTemps stack ts m) sl = loadBytes m sl
+  | [], _, _, _, _, _ => rfl
+  | (n, bs) :: ts, hpos, stack, m, sl, h => by
+    have hn : 0 < n := hpos (n, bs) (List.mem_cons_self ..)
+    have hb := temp_below stack n hn
+    simp only [writeTemps]
+    rw [writeTemps_above ts (fun t ht => hpos t (List.mem_cons_of_mem _ ht)) _ _ sl (by omega)]
+    apply load_store_disjoint
+    left; simp only [temp_bytes_length]; omega
+
+def Var.indep : Var → Var → Prop
+  | .stack a, .stack b => Slot.disjoint a b
+  | .cell i _, .cell j _ => i ≠ j
+  | _, _ => True
+
+theorem Var.indep_symm : ∀ (a b : Var), Var.indep a b → Var.indep b a
+  | .stack _, .stack _, h => Or.symm h
+  | .cell _ _, .cell _ _, h => Ne.symm h
+  | .stack _, .cell _ _, _ => trivial
+  | .cell _ _, .stack _, _ => trivial
+
+theorem read_write_same (s : State) (v : Var) (x : Nat) : (s.write v x).read v = x % 256 ^ v.size := by
+  cases v with
+  | stack sl =>
+    cases sl with
+    | mk a n =>
+      have h := load_store_same s.mem a (encLE n x)
+      rw [length_encLE] at h
+      simp only [State.write, State.read, Var.size, h, decLE_encLE_mod]
+  | cell id n => simp [State.write, State.read, Var.size]
+
+theorem read_write_indep (s : State) (v w : Var) (x : Nat) (h : Var.indep v w) : (s.write v x).read w = s.read w := by
+  cases v with
+  | stack a =>
+    cases w with
+    | stack b =>
+      cases a with
+      | mk aa an =>
+        have h' : Slot.disjoint ⟨aa, (encLE an x).length⟩ b := by rw [length_encLE]; exact h
+        simp only [State.write, State.read]
+        rw [load_store_disjoint _ _ _ _ h']
+    | cell j m => rfl
+  | cell i n =>
+    cases w with
+    | stack b => rfl
+    | cell j m =>
+      have : j ≠ i := fun e => h e.symm
+      simp [State.write, State.read, this]
+
+def rhsOk (n : Nat) : Rhs → Prop
+  | .const _ => True
+  | .copy s _ => s < n
+  | .sum a b => a < n ∧ b < n
+
+/-- statements the theorem speaks about: operands are declared variables, temporaries have a size -/
+def stmtOk (n : Nat) (st : Stmt) : Prop := rhsOk n st.rhs ∧ ∀ t ∈ st.temps, 0 < t.1
+
+theorem evalRhs_congr (n : Nat) (f g : Nat → Nat) (h : ∀ i, i < n → f i = g i) : ∀ (r : Rhs), rhsOk n r → evalRhs f r = evalRhs g r
+  | .const _, _ => rfl
+  | .copy s _, hs => by simp [evalRhs, h s hs]
+  | .sum a b, hab => by simp [evalRhs, h a hab.1, h b hab.2]
+
+section Exec
+variable (vars : List Var) (final : Int) (hp : vars.Pairwise Var.indep)
+  (hb : ∀ sl, Var.stack sl ∈ vars → final ≤ sl.addr)
+include hp hb
+
+theorem execStmt_shadow (st : Stmt) (hok : stmtOk vars.length st) (s : State) (σ : Nat → Nat)
+    (hinv : ∀ i v, vars[i]? = some v → s.read v = σ i) :
+    ∀ i v, vars[i]? = some v → (execStmt vars final s st).read v = shadowStmt vars σ st i := by
+  -- the temporaries leave every variable alone
+  have h1 : ∀ i v, vars[i]? = some v → State.read { s with mem := writeTemps final st.temps s.mem } v = σ i := by
+    intro i v hv
+    rw [← hinv i v hv]
+    cases v with
+    | stack sl =>
+      simp only [State.read]
+      rw [writeTemps_above st.temps hok.2 final s.mem sl (hb sl (List.mem_of_getElem? hv))]
+    | cell id n => rfl
+  -- so the operands are read with their shadow values
+  have hx : evalRhs (readVar vars { s with mem := writeTemps final st.temps s.mem }) st.rhs = evalRhs σ st.rhs := by
+    apply evalRhs_congr vars.length _ _ _ _ hok.1
+    intro i hi
+    have : vars[i]? = some vars[i] := List.getElem?_eq_getElem hi
+    simp only [readVar, this]
+    exact h1 i _ this
+  intro i w hw
+  unfold execStmt shadowStmt
+  cases ht : st.target with
+  | none => simpa [ht] using h1 i w hw
+  | some t =>
+    cases hv : vars[t]? with
+    | none => simpa [ht, hv] using h1 i w hw
+    | some v =>
+      simp only [Option.bind_some, hv]
+      by_cases hit : i = t
+      · subst hit
+        have : w = v := by rw [hw] at hv; exact Option.some.inj hv
+        subst this
+        rw [read_write_same, if_pos rfl, hx]
+      · simp only [hit, if_false]
+        rw [read_write_indep _ _ _ _ ?_]
+        · exact h1 i w hw
+        · obtain ⟨hi, rfl⟩ := List.getElem?_eq_some_iff.mp hw
+          obtain ⟨ht', rfl⟩ := List.getElem?_eq_some_iff.mp hv
+          rcases Nat.lt_or_gt_of_ne hit with hlt | hgt
+          · exact Var.indep_symm _ _ (List.pairwise_iff_getElem.mp hp i t hi ht' hlt)
+          · exact List.pairwise_iff_getElem.mp hp t i ht' hi hgt
+
+/-- **exec_shadow**: any list of statements run on the frame (with whatever temporaries) leaves every variable with
+the value the shadow store predicts — the target of each statement takes the value, no other variable ever changes. -/
+theorem exec_shadow : ∀ (sts : List Stmt), (∀ st ∈ sts, stmtOk vars.length st) → ∀ (s : State) (σ : Nat → Nat),
+    (∀ i v, vars[i]? = some v → s.read v = σ i) →
+    ∀ i v, vars[i]? = some v → (execAll vars final s sts).read v = shadowAll vars σ sts i
+  | [], _, s, σ, hinv => hinv
+  | st :: sts, hok, s, σ, hinv => by
+    simp only [execAll, shadowAll]
+    exact exec_shadow sts (fun x hx => hok x (List.mem_cons_of_mem _ hx)) _ _
+      (execStmt_shadow vars final hp hb st (hok st (List.mem_cons_self ..)) s σ hinv)
+
+end Exec
+
+/-- the variables of a program: the stack variables of its declarations, then map cells with distinct ids -/
+def progVars (start : Int) (ds : List VDecl) (cells : List (Nat × Nat)) : List Var :=
+  (varSlots start ds).1.map Var.stack ++ cells.map fun c => Var.cell c.1 c.2
+
+theorem progVars_indep (start : Int) (ds : List VDecl) (cells : List (Nat × Nat)) (h : ∀ d ∈ ds, vsizeOk d)
+    (hc : (cells.map Prod.fst).Nodup) : (progVars start ds cells).Pairwise Var.indep := by
+  unfold progVars
+  rw [List.pairwise_append]
+  refine ⟨?_, ?_, ?_⟩
+  · rw [List.pairwise_map]; exact varSlots_disjoint ds start h
+  · rw [List.pairwise_map]
+    have := List.pairwise_map.mp hc
+    exact this.imp (fun h => h)
+  · intro a ha b hb
+    obtain ⟨sl, _, rfl⟩ := List.mem_map.mp ha
+    obtain ⟨c, _, rfl⟩ := List.mem_map.mp hb
+    trivial
+
+/-- **noninterference** (C04 on the model): for every declaration list (locals of all sizes, Dicts with any key /
+value member lists — the same member lists may be used by several Dicts), every set of map cells and every statement
+list, each variable ends with the value of the shadow store: assigning a variable or evaluating an expression, with
+any `get_stack` temporaries, changes no other declared variable. -/
+theorem noninterference (start : Int) (ds : List VDecl) (cells : List (Nat × Nat)) (h : ∀ d ∈ ds, vsizeOk d)
+    (hc : (cells.map Prod.fst).Nodup) (sts : List Stmt) (hok : ∀ st ∈ sts, stmtOk (progVars start ds cells).length st)
+    (s : State) (i : Nat) (v : Var) (hv : (progVars start ds cells)[i]? = some v) :
+    (execAll (progVars start ds cells) (varSlots start ds).2 s sts).read v
+      = shadowAll (progVars start ds cells) (readVar (progVars start ds cells) s) sts i := by
+  apply exec_shadow (progVars start ds cells) (varSlots start ds).2 (progVars_indep start ds cells h hc) _ sts hok s _ _ i v hv
+  · intro sl hsl
+    unfold progVars at hsl
+    rcases List.mem_append.mp hsl with h1 | h1
+    · obtain ⟨sl', hs', e⟩ := List.mem_map.mp h1
+      cases e
+      exact ((varSlots_bounds ds start h).2 _ hs').1
+    · obtain ⟨c, _, e⟩ := List.mem_map.mp h1
+      cases e
+  · intro j w hw
+    simp [readVar, hw]
+
 /-! ### non-vacuity -/
 example : (alloc 0 [.loc 4, .loc 1, .loc 8, .dict 15 13, .loc 2]).1 =
     [⟨-4, 4⟩, ⟨-5, 1⟩, ⟨-16, 8⟩, ⟨-32, 15⟩, ⟨-48, 13⟩, ⟨-50, 2⟩] := by decide
+
+/-- two Dicts declared with the same key and value member lists still have members of their own -/
+example : (varSlots 0 [.loc 4, .dict [4] [8, 4], .dict [4] [8, 4]]).1 =
+    [⟨-4, 4⟩, ⟨-8, 4⟩, ⟨-24, 8⟩, ⟨-16, 4⟩, ⟨-32, 4⟩, ⟨-48, 8⟩, ⟨-40, 4⟩] := by decide
+
+def exVars : List Var := progVars 0 [.loc 4, .dict [4] [8, 4], .dict [4] [8, 4]] [(0, 8)]
+
+example : stmtOk exVars.length ⟨some 4, .copy 1 1, [(4, [1])]⟩ := ⟨by show 1 < exVars.length; decide, by decide⟩
+
+/-- `d1.key.m0 = 7; d2.key.m0 = d1.key.m0 + 2 (with a temporary); cell = d2.key.m0 + d1.key.m0`, then all are read -/
+example : (List.range exVars.length).map (readVar exVars
+    (execAll exVars (varSlots 0 [.loc 4, .dict [4] [8, 4], .dict [4] [8, 4]]).2 ⟨fun _ => 0, fun _ => 0⟩
+      [⟨some 1, .const 7, []⟩, ⟨some 4, .copy 1 2, [(4, [1])]⟩, ⟨some 7, .sum 4 1, []⟩, ⟨none, .const 0, [(8, [])]⟩]))
+    = [0, 7, 0, 0, 9, 0, 0, 16] := by decide +kernel
 
 end Ebv.C04
